@@ -850,6 +850,17 @@ def c12(tr, cx):
             if not ok: tr.v('C12', 'on_duty_count', (k, s['t'], nid, on, before, after, isb, s['evnode'], s['evtype']))
             if nd['c'] != (after if (isb and s['evnode'] == nid and s['evtype'] == 'shift_change') else nd['c']):
                 tr.v('C12', 'node_c_after_shift', (k, s['t'], nid, nd['c'], after))
+    # documented order of simultaneous events at one node: slotted service, shift change, end of service, class change, renege
+    rank = {'slotted_service': 0, 'shift_change': 1, 'end_service': 2, 'class_change': 3, 'renege': 4}
+    last_at = {}
+    for e in tr.events:
+        if e[0] != 'EVENT' or e[2] == 0 or e[3] not in rank: continue
+        prev = last_at.get(e[2])
+        if prev is not None and prev[0] == e[1] and rank[e[3]] < 2 and prev[1] > rank[e[3]]:
+            tr.count('C12.same_instant_orderings')
+            tr.v('C12', 'shift_or_slot_after_later_ranked_event_at_same_instant', (e[1], e[2], e[3], prev[2]))
+        if prev is not None and prev[0] == e[1]: tr.count('C12.same_instant_orderings')
+        last_at[e[2]] = (e[1], rank[e[3]], e[3])
     shift_end = {}
     for e in tr.events:
         if e[0] == 'shift' and nk(spec, e[2])[1] == 'schedule':
@@ -1037,12 +1048,13 @@ def tracker_oracle(spec, s, blocked_rank):
     pops = [len(s['nodes'][i + 1]['inds']) for i in range(n)]
     if name == 'SystemPopulation': return sum(pops)
     if name == 'NodePopulation': return tuple(pops)
-    if name == 'NodePopulationSubset': return tuple(pops[i] for i in range(0, n, 2))
+    from .gen import tracker_params
+    tp = tracker_params(spec)
+    if name == 'NodePopulationSubset': return tuple(pops[i] for i in tp['observed'])
     if name == 'GroupedNodePopulation':
-        groups = [list(range(0, n, 2)), list(range(1, n, 2))] if n > 1 else [[0]]
-        return tuple(sum(pops[i] for i in g) for g in groups)
+        return tuple(sum(pops[i] for i in g) for g in tp['groups'])
     if name == 'NodeClassMatrix':
-        return tuple(tuple(sum(1 for i in s['nodes'][k + 1]['inds'] if i['cls'] == c) for c in spec['classes']) for k in range(n))
+        return tuple(tuple(sum(1 for i in s['nodes'][k + 1]['inds'] if i['cls'] == c) for c in tp['class_order']) for k in range(n))
     if name == 'NaiveBlocking':
         return tuple((sum(1 for i in s['nodes'][k + 1]['inds'] if not i['blocked']), sum(1 for i in s['nodes'][k + 1]['inds'] if i['blocked'])) for k in range(n))
     if name == 'MatrixBlocking':
